@@ -19,7 +19,7 @@ theorem autoScaleOutNodeNumber_noPanic (s : Store) (n : String) (k : Nat)
   · exact R.noPanic_ok _
 
 theorem autoChangeNodeNumber_noPanic {s : Store} (hx : RX s) (n : String) (k : Nat) (choice : List (String × String))
-    (h : ∀ c, (autoDeleteFreeNodes s n).1.findCluster n = some c → DownPre c (k / 4)) :
+    (h : ∀ c, (autoDeleteFreeNodes s n).1.findCluster n = some c → k < c.chunks.length * 4 → DownPre c (k / 4)) :
     (autoChangeNodeNumber s n k choice).2.NoPanic := by
   unfold autoChangeNodeNumber
   split
@@ -34,7 +34,6 @@ theorem autoChangeNodeNumber_noPanic {s : Store} (hx : RX s) (n : String) (k : N
   obtain ⟨s1, r1⟩ := r
   simp only at h h1 h0 ⊢
   have hup := autoScaleUpNodes_noPanic h1 n k choice
-  have hdown := migrateSlotsToScaleDown_no_panic' s1 n k h
   have key : (match s1.findCluster n with
       | none => (s1, (R.err Err.clusterNotFound : R Nat))
       | some cl1 =>
@@ -54,16 +53,23 @@ theorem autoChangeNodeNumber_noPanic {s : Store} (hx : RX s) (n : String) (k : N
           | (s2, R.badChoice w) => (s2, R.badChoice w)).2.NoPanic := by
     split
     · exact R.noPanic_err _
-    · simp only
+    · rename_i cl1 hf1
+      simp only
       split
       · exact R.noPanic_ok _
-      · split
+      · rename_i hne
+        split
         · split
           · exact R.noPanic_ok _
           · exact R.noPanic_err _
           · rename_i s2 w heq; exact absurd (by rw [heq]) (hup w)
           · exact R.noPanic_bad _
-        · split
+        · rename_i hlt
+          have hdown := migrateSlotsToScaleDown_no_panic' s1 n k (fun c hc => h c hc (by
+            rw [hf1] at hc; cases hc
+            have : cl1.chunks.length * 4 ≠ k := by simpa using hne
+            omega))
+          split
           · exact R.noPanic_ok _
           · exact R.noPanic_err _
           · rename_i s2 w heq; exact absurd (by rw [heq]) (hdown w)
